@@ -758,10 +758,13 @@ class EvolvedMF:
             # Remove required fraction of the last affected bin
             else:
 
-                mr_BH_j = Mr_BH[j] / Nr_BH[j]
+                # Nothing left to eject, leave this (possibly empty) bin as is
+                if M_eject > 0:
 
-                Mr_BH[j] -= M_eject
-                Nr_BH[j] -= M_eject / (mr_BH_j)
+                    mr_BH_j = Mr_BH[j] / Nr_BH[j]
+
+                    Mr_BH[j] -= M_eject
+                    Nr_BH[j] -= M_eject / (mr_BH_j)
 
                 break
 
